@@ -474,8 +474,11 @@ class Samples(BaseSamples):
         self.evidence_error = self.xp.sqrt(
             self.xp.sum((self.weights - self.evidence) ** 2) / (n * (n - 1))
         )
-        self.log_evidence_error = self.xp.abs(
-            self.evidence_error / self.evidence
+        # Relative error from the normalised weights w / Z (bounded by n), so
+        # it stays finite when exp(log_w) overflows or underflows.
+        rel_w = self.xp.exp(self.log_w - self.log_evidence)
+        self.log_evidence_error = self.xp.sqrt(
+            self.xp.sum((rel_w - 1.0) ** 2) / (n * (n - 1))
         )
         log_w = self.log_w - self.xp.max(self.log_w)
         self.effective_sample_size = self.xp.exp(
